@@ -9,7 +9,23 @@ import (
 // (used when param alpha=1); with alpha=0 all 256 byte values are allowed.
 const verifSigmaSh = "ab10_ \t\n\\'\"$`{}()[]<>|&;#=+-*?!@%/:,.~^"
 
+// verifSrc returns the source under test: n symbolic bytes, or for n < 0 one
+// of the corpus skeletons (chosen symbolically) with its hole filled by a
+// symbolic byte.
 func verifSrc(n int) []byte {
+	if n < 0 {
+		src := []byte(verifCorpus[verifChoice("prog", len(verifCorpus))])
+		hole := verifByte("hole")
+		if verifParam("alpha") != 0 {
+			verifAssume(verifInSet(hole, verifSigmaSh))
+		}
+		for i := range src {
+			if src[i] == 1 {
+				src[i] = hole
+			}
+		}
+		return src
+	}
 	src := verifBytes("src", n)
 	switch verifParam("alpha") {
 	case 1:
@@ -165,29 +181,7 @@ func verifC01Known(src []byte, f *File, o verifOpts) bool {
 	if verifKnown("C01-zsh-redir-bang", bang && verifParam("lang") == 4) {
 		return true
 	}
-	// a heredoc body whose last line ends in a backslash
-	hdocCont := false
-	Walk(f, func(n Node) bool {
-		if r, ok := n.(*Redirect); ok && r.Hdoc != nil && len(r.Hdoc.Parts) > 0 {
-			if l, ok := r.Hdoc.Parts[len(r.Hdoc.Parts)-1].(*Lit); ok {
-				v := l.Value
-				// an escaped newline splits the body into adjacent literals;
-				// a last literal of tabs only is what precedes the delimiter
-				if np := len(r.Hdoc.Parts); np >= 2 {
-					if _, ok := r.Hdoc.Parts[np-2].(*Lit); ok && verifOnlyTabs(v) {
-						hdocCont = true
-					}
-				}
-				if k := len(v); k >= 2 && v[k-1] == '\n' && v[k-2] == '\\' {
-					hdocCont = true
-				}
-				if k := len(v); k >= 1 && v[k-1] == '\\' {
-					hdocCont = true
-				}
-			}
-		}
-		return true
-	})
+	hdocCont := verifHdocCont(f)
 	if verifKnown("C01-heredoc-continuation-before-delimiter", hdocCont) {
 		return true
 	}
@@ -279,6 +273,9 @@ func verifRoundTrip(src []byte, lang LangVariant, mode int) {
 		var out2 bytes.Buffer
 		perr2 := o.printer().Print(&out2, f2)
 		verifAssert(perr2 == nil, "Print failed on the re-parsed tree")
+		if out2.String() != outs && verifKnown("C02-closing-paren-on-later-line", verifLateClose(f2)) {
+			return
+		}
 		verifAssert(out2.String() == outs, "formatting is not idempotent")
 	}
 	if mode&1 != 0 {
@@ -296,4 +293,73 @@ func verifOnlyTabs(s string) bool {
 		}
 	}
 	return true
+}
+
+// verifLateClose: the tree (parsed from printed output) has a subshell, block
+// or command/process substitution whose first statement starts on the line of
+// the opening token while the closing token is on a later line than the end of
+// its last statement or comment: a layout the printer itself rewrites.
+func verifLateClose(f *File) bool {
+	found := false
+	check := func(open, close Pos, stmts []*Stmt, last []Comment) {
+		if len(stmts) == 0 || !close.IsValid() {
+			return
+		}
+		end := stmts[len(stmts)-1].End()
+		for _, c := range stmts[len(stmts)-1].Comments {
+			if c.End().After(end) {
+				end = c.End()
+			}
+		}
+		for _, c := range last {
+			if c.End().After(end) {
+				end = c.End()
+			}
+		}
+		if stmts[0].Pos().Line() == open.Line() && close.Line() > end.Line() {
+			found = true
+		}
+	}
+	Walk(f, func(n Node) bool {
+		switch n := n.(type) {
+		case *Subshell:
+			check(n.Lparen, n.Rparen, n.Stmts, n.Last)
+		case *Block:
+			check(n.Lbrace, n.Rbrace, n.Stmts, n.Last)
+		case *CmdSubst:
+			check(n.Left, n.Right, n.Stmts, n.Last)
+		case *ProcSubst:
+			check(n.OpPos, n.Rparen, n.Stmts, n.Last)
+		}
+		return true
+	})
+	return found
+}
+
+// verifHdocCont: a heredoc body whose last line ends in a backslash (region of
+// the known finding C01-heredoc-continuation-before-delimiter).
+func verifHdocCont(f *File) bool {
+	hdocCont := false
+	Walk(f, func(n Node) bool {
+		if r, ok := n.(*Redirect); ok && r.Hdoc != nil && len(r.Hdoc.Parts) > 0 {
+			if l, ok := r.Hdoc.Parts[len(r.Hdoc.Parts)-1].(*Lit); ok {
+				v := l.Value
+				// an escaped newline splits the body into adjacent literals;
+				// a last literal of tabs only is what precedes the delimiter
+				if np := len(r.Hdoc.Parts); np >= 2 {
+					if _, ok := r.Hdoc.Parts[np-2].(*Lit); ok && verifOnlyTabs(v) {
+						hdocCont = true
+					}
+				}
+				if k := len(v); k >= 2 && v[k-1] == '\n' && v[k-2] == '\\' {
+					hdocCont = true
+				}
+				if k := len(v); k >= 1 && v[k-1] == '\\' {
+					hdocCont = true
+				}
+			}
+		}
+		return true
+	})
+	return hdocCont
 }
